@@ -181,13 +181,17 @@ def extract_helpers(client_src, cls_name="ResSvcClient"):
               and isinstance(pbody[0].value, ast.Call)
               and ast.unparse(pbody[0].value.func) == "re.match"
               and isinstance(pbody[0].value.args[0], ast.Constant)
-              and ast.unparse(pbody[0].value.args[1]) == pf.args.args[0].arg
+              and len(pbody[0].value.args) == 2
               and isinstance(pbody[1], ast.Return)
               and ast.unparse(pbody[1].value) == "m.groupdict() if m else {}")
         if not ok:
             raise core.Inconclusive(f"unsupported shape of emitted {pname}")
+        # the regex is matched against the parameter itself on the unchanged tree; whatever expression stands there is
+        # executed as it is by the exact engine (O2x runs the emitted functions), the regex obligations speak about the
+        # regex alone
         helpers[name] = dict(args=args, fmt=call.func.value.value, fmt_kw=kw,
-                             regex=pbody[0].value.args[0].value,
+                             regex=pbody[0].value.args[0].value, names=(name, pname),
+                             subject=ast.unparse(pbody[0].value.args[1]),
                              build_src=ast.unparse(fn), parse_src=ast.unparse(pf))
     return helpers
 
@@ -363,10 +367,14 @@ def work(task):
 def bstr_roundtrip(h, toks, seps, xbound, regex=None):
     """For every length vector within the bound: CPython-selected groups == v."""
     import itertools
-    regex = regex or h["regex"]
     vars_ = [t for t in toks if t[0] == "var"]
     names = [t[1] for t in vars_]
-    pat = bstr.SymPattern(regex)
+    if regex is None:
+        # the REAL emitted helpers, executed symbolically (format call, re.match through the shim, whatever else they do)
+        build_fn, _ = bstr.load_function("emitted:client.py", h["names"][0], {}, source=h["build_src"])
+        parse_fn, _ = bstr.load_function("emitted:client.py", h["names"][1], {}, source=h["parse_src"])
+    else:
+        pat = bstr.SymPattern(regex)          # canaries: a mutated regex in place of the emitted one
     # keep the number of length vectors small: per-variable max length shrinks with arity
     per = xbound.get(len(vars_), 2)
     lens = []
@@ -385,16 +393,17 @@ def bstr_roundtrip(h, toks, seps, xbound, regex=None):
                 base.append(z3.And(ch >= 32, ch <= 126, *[ch != b for b in bad]))
 
         def run():
+            if regex is None:
+                return parse_fn(build_fn(**vals))
             path = bstr.sym_format(h["fmt"], (), {k: vals[v] for k, v in h["fmt_kw"].items()})
             m = pat.match(path)
-            return m
-        for c, m in bstr.explore(run, base):
+            return m.groupdict() if m is not None else {}
+        for c, gd in bstr.explore(run, base):
             leaves += 1
-            if m is None:
+            if not gd:
                 mdl = c.model()
                 return "cex", {"kind": "roundtrip",
                                "values": {n: bstr.model_string(mdl, vals[n]) for n in names}}, None
-            gd = m.groupdict()
             phi = bstr.b_and([bstr.eq_chars(gd[n].c, vals[n].c) if gd.get(n) is not None else False
                               for n in names])
             ok, mdl = c.valid(phi)
